@@ -90,6 +90,7 @@ type stream struct {
 	chunkIdx int
 	chunkRem int
 	nreads   int
+	waiting  bool // the reader is blocked in read with an empty buffer
 	sink     bool // after the reader closed, writes succeed and are discarded
 	maxBuf   int  // 0 = unbounded; otherwise Write blocks while len(buf) >= maxBuf (back-pressure)
 }
@@ -121,8 +122,11 @@ func (s *stream) read(p []byte) (int, error) {
 	s.mu.Lock()
 	defer s.mu.Unlock()
 	for len(s.buf) == 0 && !s.wclosed && !s.rclosed {
+		s.waiting = true
+		s.cond.Broadcast()
 		s.cond.Wait()
 	}
+	s.waiting = false
 	if s.rclosed {
 		return 0, io.ErrClosedPipe
 	}
@@ -158,6 +162,16 @@ func (s *stream) read(p []byte) (int, error) {
 	return n, nil
 }
 
+// waitReaderIdle blocks until the reader has consumed everything written so far and is
+// blocked waiting for more (or has gone away). Event synchronisation, no clock.
+func (s *stream) waitReaderIdle() {
+	s.mu.Lock()
+	for !(s.waiting && len(s.buf) == 0) && !s.rclosed {
+		s.cond.Wait()
+	}
+	s.mu.Unlock()
+}
+
 func (s *stream) closeWrite() {
 	s.mu.Lock()
 	s.wclosed = true
@@ -175,13 +189,16 @@ func (s *stream) closeRead() {
 // g4Conn is a net.Conn made of an inbound and an outbound stream. Every Write
 // call is recorded (the muxer writes exactly one segment per call).
 type g4Conn struct {
-	in, out *stream
-	wmu     sync.Mutex
-	writes  [][]byte
-	wcond   *sync.Cond
-	record  bool
-	perturb *Rand // scheduler perturbation inside Write (under the muxer's send mutex)
-	once    sync.Once
+	in, out      *stream
+	wmu          sync.Mutex
+	writes       [][]byte
+	wcond        *sync.Cond
+	record       bool
+	perturb      *Rand         // scheduler perturbation inside Write (under the muxer's send mutex)
+	payloadBytes int           // sum of len(write)-8 over all writes
+	closed       bool          // Close was called
+	holdCh       chan struct{} // when non-nil, every Write blocks until it is closed (a connection slow to accept writes)
+	once         sync.Once
 }
 
 func newG4Conn(in, out *stream, record bool) *g4Conn {
@@ -193,6 +210,9 @@ func newG4Conn(in, out *stream, record bool) *g4Conn {
 func (c *g4Conn) Read(p []byte) (int, error) { return c.in.read(p) }
 
 func (c *g4Conn) Write(p []byte) (int, error) {
+	if c.holdCh != nil {
+		<-c.holdCh
+	}
 	if c.perturb != nil {
 		c.wmu.Lock()
 		k := c.perturb.Intn(3)
@@ -208,6 +228,9 @@ func (c *g4Conn) Write(p []byte) (int, error) {
 	} else {
 		c.writes = append(c.writes, nil)
 	}
+	if len(p) >= 8 {
+		c.payloadBytes += len(p) - 8
+	}
 	c.wcond.Broadcast()
 	c.wmu.Unlock()
 	return n, err
@@ -217,6 +240,16 @@ func (c *g4Conn) Write(p []byte) (int, error) {
 func (c *g4Conn) waitWrites(n int) {
 	c.wmu.Lock()
 	for len(c.writes) < n {
+		c.wcond.Wait()
+	}
+	c.wmu.Unlock()
+}
+
+// waitPayloadBytes blocks until the segments written so far carry at least n payload bytes
+// (each Write is one segment with an 8-byte header) or the connection was closed.
+func (c *g4Conn) waitPayloadBytes(n int) {
+	c.wmu.Lock()
+	for c.payloadBytes < n && !c.closed {
 		c.wcond.Wait()
 	}
 	c.wmu.Unlock()
@@ -232,6 +265,10 @@ func (c *g4Conn) Close() error {
 	c.once.Do(func() {
 		c.in.closeRead()
 		c.out.closeWrite()
+		c.wmu.Lock()
+		c.closed = true
+		c.wcond.Broadcast()
+		c.wmu.Unlock()
 	})
 	return nil
 }
